@@ -278,7 +278,7 @@ def canon(v):
     return {'other': type(v).__name__}
 
 
-def canon_model(r, rule_names):
+def canon_model(r, rule_names, tagnames=None):
     """Reply value of modelrun_Engine -> same canonical form."""
     if r == 'none':
         return None
@@ -290,9 +290,9 @@ def canon_model(r, rule_names):
     if tag == 'bool':
         return {'bool': r[1] == '1'}
     if tag == 'tuple':
-        return {'tuple': [canon_model(x, rule_names) for x in r[1:]]}
+        return {'tuple': [canon_model(x, rule_names, tagnames) for x in r[1:]]}
     if tag == 'list':
-        return [canon_model(x, rule_names) for x in r[2:]]
+        return [canon_model(x, rule_names, tagnames) for x in r[2:]]
     if tag == 'dict':
         out = {}
         for k, v in r[1:]:
@@ -300,10 +300,10 @@ def canon_model(r, rule_names):
             if ks in ('parseinfo', '__parseinfo__'):
                 out[ks] = ['info', rule_names[int(v[1])], int(v[2]), int(v[3]), int(v[4]), int(v[5])]
             else:
-                out[ks] = canon_model(v, rule_names)
+                out[ks] = canon_model(v, rule_names, tagnames)
         return {'dict': dict(sorted(out.items()))}
     if tag == 'tag':
-        return {'tag': [rule_names[int(r[1])], canon_model(r[2], rule_names)]}
+        return {'tag': [(tagnames or rule_names)[int(r[1])], canon_model(r[2], rule_names, tagnames)]}
     raise ValueError(tag)
 
 
@@ -370,8 +370,35 @@ def make_semantics(spec, rule_names):
     return sem
 
 
+def resolve_actions(spec, rule_names) -> dict:
+    """rule name -> name of the method that serves it (or '_default' / None): the harness's own statement of the lookup order of
+    tatsu/contexts/core.py (name, safe_name(name), name.strip('_'), _name, _name_, each passed through safe_name; then _default).
+    The model is told which action each rule has from THIS table, so a change to the implementation's lookup shows as an E1 divergence."""
+    from tatsu.util import safe_name
+    default, methods = spec
+    live = {m for m, k in methods.items() if k != 'none'}
+    out = {}
+    for n in rule_names:
+        found = None
+        for cand in (n, safe_name(n), n.strip('_'), f'_{n}', f'_{n}_'):
+            if cand and safe_name(cand) in live:
+                found = safe_name(cand)
+                break
+        if found is None and default != 'none':
+            found = '_default'
+        out[n] = found
+    return out
+
+
+def tag_names(spec, rule_names) -> list:
+    """what a tagging action writes for each rule: the name of the method that was found for it"""
+    res = resolve_actions(spec, rule_names)
+    return [res[n] if res[n] not in (None, '_default') else n for n in rule_names]
+
+
 def sem_sx(spec, names) -> str:
     default, methods = spec
+    res = resolve_actions(spec, list(names))
 
     def one(k):
         if isinstance(k, str):
@@ -383,7 +410,7 @@ def sem_sx(spec, names) -> str:
         if k[0] == 'const':
             return f'(const {val_sx(k[1])})'
         raise ValueError(k)
-    return '(sem ' + one(default) + ''.join(f' ({names[r]} {one(k)})' for r, k in methods.items()) + ')'
+    return '(sem ' + one(default) + ''.join(f' ({names[r]} {one(methods[m])})' for r, m in res.items() if m not in (None, '_default')) + ')'
 
 
 def run_impl(model, text: str, start: str | None, settings: Settings, semantics=None, timeout=5.0):
@@ -538,10 +565,11 @@ def model_request(g, model, text: str, start: str | None, settings: Settings, se
     return req
 
 
-def model_outcome(reply, g):
+def model_outcome(reply, g, semspec=None):
     rule_names = [n for n, _, _ in g['rules']]
+    tagnames = tag_names(semspec, rule_names) if semspec is not None else None
     if reply[0] == 'ok':
-        return ('ok', canon_model(reply[1], rule_names))
+        return ('ok', canon_model(reply[1], rule_names, tagnames))
     if reply[0] == 'fail':
         return ('fail', None)
     if reply[0] == 'fatal':
